@@ -35,6 +35,10 @@ P = {
   "The real aggregation code (partitioning by face size, fancy gather, scatter of the per-partition results) runs on a symbolic face-node table and symbolic data; the ten numpy reductions are replaced by a recorder H_k(operand row). z3 shows that, for every node numbering, the operand handed to the reduction for face f (edge e) is exactly that element's own corner values, in order, with no padding, that the result lands at position f, for every leading index and every reduction; dims/grid/name of the result; unsupported source/destination combinations raise.",
   "Bounds: 3 faces with every size layout in {3,4,5}^3 (10 layouts quick, all 27 thorough), 4-5 face layouts with size gaps (3,5,3,5), (4,3,3,5), (6,3,3,6), node ids < 6-7, leading dims up to (2,2), edges with symbolic end nodes. n_nodes_per_face is supplied to the grid (its derivation is C02's subject). numpy's reductions themselves are trusted. Abstracted obligation: sat models are candidates judged by a concrete replay with all ten real reductions.",
   "DESIGN.md §2 C17"),
+ "C04": (True,
+  "Data-flow / unit / range / provenance check of the real coordinate code with uninterpreted trigonometry: for every node position and every provenance (lon/lat only incl. 0..360 longitudes, centres supplied as lon/lat or derived, xyz only) and several first-access orders z3 shows that node/edge/face x,y,z are the unit vectors of the reported degrees (exactly one deg->rad conversion), centres not supplied are the normalised mean of the element's own corner vectors, derived lon/lat are rad2deg of arctan2(y,x)/arcsin(z) of the reported xyz with the pole snap taking the sign of z, all longitudes are reported in [-180,180] congruent to the source mod 360; normalize_cartesian_coordinates leaves every node and face-centre triple with unit length and unchanged direction.",
+  "Floats as reals; sin/cos/arcsin/arctan2/sqrt uninterpreted with the listed axioms (ranges of the inverse functions, sqrt(1)=1); products/quotients of two non-constant reals are uninterpreted in the data-flow obligations ('algebra-free' mode, commutativity and unit lemmas instantiated), so value-level identities such as sin^2+cos^2=1 are not used; rounding and the accuracy of numpy's trig are outside. Bounds: 2 faces (4+3 corners) over 5 nodes, 7-8 first accesses, 3 access orders; the normalisation obligation fixes 7 rational directions and keeps lengths symbolic. Abstracted obligations: sat models are candidates judged by a concrete replay (same direction within 1e-6).",
+  "DESIGN.md §2 C04"),
 }
 NA = {
  "C10": "Quantifies over arbitrary compositions of xarray's own operations; whether the grid survives is decided inside xarray/numpy C-level dispatch which symbolic values cannot cross, and there is no bounded uxarray kernel to encode (DESIGN.md §4).",
